@@ -105,6 +105,8 @@ struct State {
     /// Points do not yield while > 0.
     atomic: u32,
     held: BTreeMap<u64, Option<usize>>,
+    /// actors that had to wait for a hooked lock (index of the waiter)
+    lock_waits: Vec<usize>,
     next_obj: u64,
     gates: Vec<GateRec>,
     steps: u32,
@@ -205,6 +207,11 @@ impl Hooks for EngineHooks {
     fn mutex_blocked(&self, obj: u64) {
         let obj = norm_id(obj);
         if can_yield() {
+            with_st(|st| {
+                if let Some(c) = st.current {
+                    st.lock_waits.push(c);
+                }
+            });
             let _ = suspend(Yield::Blocked(obj));
         } else {
             // Cannot wait here (controller context, atomic section or
@@ -263,6 +270,7 @@ pub fn begin() {
             current: None,
             atomic: 0,
             held: BTreeMap::new(),
+            lock_waits: Vec::new(),
             next_obj: 0,
             gates: Vec::new(),
             steps: 0,
@@ -383,6 +391,11 @@ pub fn current() -> Option<usize> {
 
 pub fn actor_name(i: usize) -> String {
     with_st(|st| st.actors[i].name.clone())
+}
+
+/// Actors that found a hooked lock held by someone else and had to wait.
+pub fn lock_waits() -> Vec<usize> {
+    with_st(|st| st.lock_waits.clone())
 }
 
 pub fn actor_kind(i: usize) -> ActorKind {
